@@ -316,3 +316,74 @@ package proj
 //@   ensures [datum_attached] json.datum != nil
 //@   loop 1 `for i, p := range datumDef.towgs84`
 //@     invariant #1 <= len(datumDef.towgs84) && len(json.DatumParams) == len(datumDef.towgs84) && fresh(json.DatumParams) && json != nil
+
+//@ func LongLat$1
+//@   prop C09
+//@   mode real
+//@   ensures [identity] result0 == x && result1 == y && result2 == nil
+//@   modifies nothing
+
+//@ -- UTM zone parameters as in lib/projections/utm.js (TMerc itself is a trusted constructor here;
+//@ -- its closures are under contract above)
+//@ func TMerc
+//@   trusted projection constructor: computes the captured series constants and returns the two closures verified as TMerc$1 / TMerc$2
+//@   opt writes=alloc
+//@   requires [sr] this != nil
+//@   modifies nothing
+
+//@ func UTM
+//@   prop C09
+//@   mode real
+//@   requires [sr] this != nil
+//@   ensures [zone_parameters] err == nil ==> this.Lat0 == 0 && this.Long0 == ((6 * abs(this.Zone)) - 183) * 0.017453292519943295 && this.X0 == 500000 && this.Y0 == (this.UTMSouth ? 10000000.0 : 0.0) && this.K0 == 0.9996
+//@   modifies *this
+
+//@ -- Krovak forward, statement by statement as in lib/projections/krovak.js
+//@ func Krovak$1
+//@   prop C09
+//@   mode real
+//@   requires [captured] *this != nil
+//@   ensures [gfi] gfi == pow((1 + (*this).E * sin(lat)) / (1 - (*this).E * sin(lat)), *Alfa * (*this).E / 2)
+//@   ensures [u] u == 2 * (atan(*K * pow(tan(lat / 2 + 0.785398163397448), *Alfa) / gfi) - 0.785398163397448)
+//@   ensures [deltav] deltav == -js_adjust_lon(lon - (*this).Long0) * *Alfa
+//@   ensures [s] s == asin(cos(*Ad) * sin(u) + sin(*Ad) * cos(u) * cos(deltav))
+//@   ensures [d] d == asin(cos(u) * sin(deltav) / cos(s))
+//@   ensures [eps_ro] eps == *N * d && ro == *Ro0 * pow(tan(1.37008346281555 / 2 + 0.785398163397448), *N) / pow(tan(s / 2 + 0.785398163397448), *N)
+//@   ensures [xy] err == nil && ((*this).Czech ==> y == ro * cos(eps) / 1 && x == ro * sin(eps) / 1) && (!(*this).Czech ==> y == -(ro * cos(eps) / 1) && x == -(ro * sin(eps) / 1))
+//@   modifies nothing
+
+//@ func aeaPhi1z
+//@   prop C09
+//@   mode real
+//@   modifies nothing
+//@   loop 1 `for i := 1; i <= 25; i++`
+//@     invariant 1 <= i && i <= 26
+//@     decreases 26 - i
+
+//@ func imlfn
+//@   prop C09
+//@   mode real
+//@   modifies nothing
+//@   loop 1 `for i := 0; i < 15; i++`
+//@     invariant 0 <= i && i <= 15
+//@     decreases 15 - i
+
+//@ -- conic inverses: radius/angle recovery as in aea.js / eqdc.js (x, y are the shifted values at the return)
+//@ spec coneRh(nsv float64, xs float64, ys float64) float64 = nsv >= 0 ? sqrt(xs * xs + ys * ys) : -sqrt(xs * xs + ys * ys)
+//@ spec coneTheta(nsv float64, xs float64, ys float64) float64 = coneRh(nsv, xs, ys) != 0 ? (nsv >= 0 ? atan2(1.0 * xs, 1.0 * ys) : atan2(-1.0 * xs, -1.0 * ys)) : 0.0
+
+//@ func AEA$2
+//@   prop C09
+//@   mode real
+//@   requires [captured] *this != nil
+//@   ensures [lon] err == nil ==> lon == js_adjust_lon(coneTheta(*ns0, x@0 - (*this).X0, *rh - y@0 + (*this).Y0) / *ns0 + (*this).Long0)
+//@   ensures [sphere_lat] err == nil && (*this).sphere ==> lat == asin((*c - (coneRh(*ns0, x@0 - (*this).X0, *rh - y@0 + (*this).Y0) * *ns0 / (*this).A) * (coneRh(*ns0, x@0 - (*this).X0, *rh - y@0 + (*this).Y0) * *ns0 / (*this).A)) / (2 * *ns0))
+//@   modifies nothing
+
+//@ func EqdC$2
+//@   prop C09
+//@   mode real
+//@   requires [captured] *this != nil
+//@   ensures [lon] err == nil ==> lon == js_adjust_lon((*this).Long0 + coneTheta(*ns, x@0 - (*this).X0, *rh - y@0 + (*this).Y0) / *ns)
+//@   ensures [sphere_lat] err == nil && (*this).sphere ==> lat == js_adjust_lat(*g - coneRh(*ns, x@0 - (*this).X0, *rh - y@0 + (*this).Y0) / (*this).A)
+//@   modifies nothing
